@@ -14,6 +14,8 @@ EXPLANATION = (
     "(no Arc/Rc/Mutex/RefCell/static/channel otherwise) and SharedState's fields are exactly the four audited cells. "
     "That concurrent healthy requests deliver their own bytes is value-level; per-stream state isolation is the "
     "structural part decided here.")
+# every anchor of these rules lives in the h3 crate: thorough tier repeats them on the feature-less build
+EXTRA_CONFIGS = ["h3-plain"]
 RULES = "C07-a stream-scoped faults are not connection-fatal (A3); C07-b stream errors never become clean EOF (A3); C07-c nothing but the shared state is shared (A12)"
 
 CEC = "h3::error::connection_error_creators::"
